@@ -157,11 +157,25 @@ CORPUS = _alias_corpus() + _numeq_corpus() + _setexpr_corpus() + [  # hand-writt
 ]
 
 
+FRAG_VARS = ["x1", "x2", "y9", "力量", "_v"]
+
+
+def frag_program(r):
+    """a fragment expression, or a sequence of 2-4 of them as statements"""
+    if r.random() < 0.5:
+        return frag_tree(r)
+    return ("seq", [frag_tree(r, 1) for _ in range(r.randint(2, 4))])
+
+
 def frag_tree(r, d=0):
     """trees of the fragment of compile_correct: numbers, binary / unary operators, ternary, || and &&"""
     k = r.random()
-    if d >= 4 or k < 0.25:
+    if d >= 4 or k < 0.22:
         return ("i", r.choice([0, 1, 2, 3, 7, 10, 100]))
+    if k < 0.30:
+        return ("var", r.choice(FRAG_VARS))
+    if k < 0.36:
+        return ("asg", r.choice(FRAG_VARS), frag_tree(r, d + 1))
     if k < 0.6:
         op = r.choice(["add", "sub", "mul", "div", "mod", "pow", "nullCoalescing", "comp.lt", "comp.le", "comp.eq", "comp.ne", "comp.ge", "comp.gt", "&", "|"])
         return ("bin", op, frag_tree(r, d + 1), frag_tree(r, d + 1))
@@ -176,7 +190,7 @@ def frag_tree(r, d=0):
 
 def main(tier):
     run = Run("C02", tier, module="DS.Props.C02", props_file="DS/Props/C02.lean",
-              extra_files=["DS/Model/RefEval.lean", "DS/Model/VMRun.lean", "DS/Model/Ops.lean"])
+              extra_files=["DS/Model/RefEval.lean", "DS/Model/VMRun.lean", "DS/Model/Ops.lean", "DS/Model/Frag.lean", "DS/Proofs/FragLemmas.lean", "DS/Proofs/FragCompile.lean", "DS/Proofs/FragStmts.lean"])
     if run.prepare():
         run.proofs()
         r = run.rng
@@ -237,7 +251,7 @@ def main(tier):
                 run.nontriv(("ref", tuple(texts), cfg))
         run.sample({"stream": "ref", "sources": srcs[len(CORPUS)], "reference_line": lean_lines[len(CORPUS)][:300]})
         # ---------- compile stream: the compiler of the theorem vs the real compiler, instruction by instruction
-        trees = [frag_tree(r) for _ in range(3000 if tier == "thorough" else 700)]
+        trees = [frag_program(r) for _ in range(3000 if tier == "thorough" else 700)]
         texts, sx_lines = [], []
         for t in trees:
             pr = Printer(r, spacing=True, redundant=r.choice([0.0, 0.1, 0.3]))
@@ -250,6 +264,7 @@ def main(tier):
             cs["cases"] += 1
             run.evaluations += 1
             dump = a.split(" ", 1)[1] if " " in a else a
+            dump = re.sub(r"mark\.detail=d\d+,\d+", "mark.detail=d_", dump)     # the extents are source positions (C08 / C14 check them)
             off = a.split(" ", 1)[0]
             if dump == b and off == str(len(txt.encode())):
                 cs["agree"] += 1
